@@ -9,6 +9,7 @@ The source code is distributed under BSD license, see the file License.txt
 at the top-level directory.
 */
 #include "slu_mt_ddefs.h"
+#include "slu_mt_verif.h"
 
 void
 pxgstrf_scheduler(const int_t pnum, const int_t n, const int_t *etree, 
@@ -194,6 +195,7 @@ pxgstrf_scheduler(const int_t pnum, const int_t n, const int_t *etree,
      * Update the status of the new panel "jcol" and its parent "dad".
      */
     if ( jcol != EMPTY ) {
+	    SLU_VERIF_EV("@Take", pnum, jcol);
 	    --pxgstrf_shared->tasks_remain;
 #ifdef DOMAINS
 	if ( in_domain[jcol] == TREE_DOMAIN ) {
@@ -237,6 +239,9 @@ pxgstrf_scheduler(const int_t pnum, const int_t n, const int_t *etree,
 
     } /* if jcol != empty */
 
+    SLU_VERIF_EV("Sched", pnum, *cur_pan, jcol, (jcol != EMPTY ? *bcol : EMPTY),
+		 pxgstrf_shared->tasks_remain, taskq->head, taskq->tail,
+		 taskq->count);
     *cur_pan = jcol;
 
 #if ( DEBUGlevel>=1 )
